@@ -417,6 +417,12 @@ func (w *c13World) observe(result string) string {
 			sort.Strings(owners)
 			sb.WriteString(strings.Join(owners, ","))
 		}
+		// FindServices without a type
+		if found, err := w.mgr.FindServices(w.ctx, w.real(s), nil); err != nil {
+			sb.WriteString(" untyped=" + c13ErrClass(err))
+		} else {
+			fmt.Fprintf(&sb, " untyped=%d", len(found))
+		}
 	}
 	return sb.String()
 }
